@@ -16,9 +16,7 @@ pub struct Fe(pub(crate) [i32; 10]);
 
 impl PartialEq for Fe {
     fn eq(&self, other: &Fe) -> bool {
-        let &Fe(self_elems) = self;
-        let &Fe(other_elems) = other;
-        self_elems == other_elems
+        self.to_bytes().ct_eq(&other.to_bytes()).is_true()
     }
 }
 impl Eq for Fe {}
